@@ -131,8 +131,8 @@ def dry_run_and_input_listing_touch_nothing(gsi: int, omit: bool, ns_types: bool
 _CUR: typing.List[FakeFS] = [FakeFS()]
 
 
-def _open(name, mode="r", encoding=None):
-    return _CUR[0].open(name, mode, encoding)
+def _open(name, mode="r", encoding=None, **kw):
+    return _CUR[0].open(name, mode, encoding, **kw)
 
 
 nunavut.jinja.open = _open  # type: ignore
